@@ -278,7 +278,11 @@ fn execute(c: &Case, rng: &mut Rng, tmo_ms: u64) -> Exec {
         let spread_us = if c.tmo && !c.imm { Some(tmo_ms * 1000 + 1) } else { None };
         let jit: Vec<u64> = ops.iter().map(|_| rng.next()).collect();
         handles.push(std::thread::spawn(move || {
-            while !go.load(Ordering::Acquire) { std::hint::spin_loop(); }
+            let mut spins = 0u32;
+            while !go.load(Ordering::Acquire) {
+                spins += 1;
+                if spins > 5000 { std::thread::yield_now(); } else { std::hint::spin_loop(); }
+            }
             let mut res = Vec::new();
             for (op, j) in ops.iter().zip(jit) {
                 match spread_us { Some(us) => std::thread::sleep(Duration::from_micros((j >> 8) % us)), None => jitter(j) }
